@@ -905,6 +905,81 @@ def slow_disk_case(ctx, workdir: str, delay: float, k: int, mode: str) -> None:
     judge_context(ctx, result, path, case)
 
 
+def split_task_case(ctx, workdir: str, transport_kind: str, how: str) -> None:
+    """The context is entered by one task and left by another (an AsyncExitStack opened in a set-up task and closed in a
+    tear-down task, a test fixture, an integration whose load / unload callbacks are separate tasks): leaving still
+    disconnects, stops the saver, writes the final registry."""
+    from contextlib import AsyncExitStack
+
+    from aiomysensors.gateway import Config, Gateway
+    from aiomysensors.model.node import Node
+
+    path = os.path.join(workdir, "split.json")
+    prepare_file(path, "present")
+    case = {"engine": "vloop", "split_task": how, "transport": transport_kind}
+
+    async def scenario() -> dict:
+        transport = make_transport(transport_kind, {"mode": "normal"})
+        gateway = Gateway(transport, Config(persistence_file=path))
+        before = set(asyncio.all_tasks())
+        stack = AsyncExitStack()
+        observed = None
+
+        async def setup() -> None:
+            if how == "exit-stack":
+                await stack.enter_async_context(gateway)
+            else:
+                await gateway.__aenter__()
+
+        async def teardown() -> None:
+            if how == "exit-stack":
+                await stack.aclose()
+            else:
+                await gateway.__aexit__(None, None, None)
+
+        await asyncio.ensure_future(setup())
+        await asyncio.sleep(5)
+        gateway.nodes[33] = Node(33, 17, "2.0", sketch_name="added between the tasks")
+        final = typed(snap(gateway.nodes))
+        try:
+            await asyncio.ensure_future(teardown())
+        except Exception as exc:  # noqa: BLE001
+            observed = exc
+        await asyncio.sleep(0)
+        left = [repr(t)[:140] for t in asyncio.all_tasks() if t not in before and t is not asyncio.current_task() and not t.done()]
+        for t in [t for t in asyncio.all_tasks() if t is not asyncio.current_task()]:
+            t.cancel()
+        return {"observed": observed, "left": left, "final": final,
+                "disconnected": getattr(transport, "disconnected", None)}
+
+    with install() as seam:
+        if transport_kind == "mqtt-fake" and not seam:
+            return
+        result, _loop = run_virtual(scenario)
+        exited = FakeClient.instances[-1].exited if (transport_kind == "mqtt-fake" and FakeClient.instances) else None
+    ctx.case(("split-task", transport_kind, how), sample=case)
+    ctx.clause("entered-and-left-by-different-tasks")
+    if isinstance(result, LogicalDeadlock):
+        ctx.violation("context-deadlock", f"logical deadlock in {case}", case)
+        return
+    if isinstance(result, BaseException):
+        from ..harness import scenario_exception
+
+        scenario_exception(ctx, result, case, "split-task")
+        return
+    if result["observed"] is not None:
+        exc = result["observed"]
+        ctx.violation("exit-raised", f"leaving the context from another task than the one that entered it raised "
+                                     f"{type(exc).__name__}: {exc!s:.100}", case)
+    if result["left"]:
+        ctx.violation("task-left-after-exit", f"{result['left']}", case)
+    if (transport_kind == "scripted" and not result["disconnected"]) or (transport_kind == "mqtt-fake" and exited != 1):
+        ctx.violation("disconnect-not-called", "the transport was not disconnected", case)
+    status, disk = registry_on_disk(path)
+    if status != "ok" or disk != result["final"]:
+        ctx.violation("no-final-save", f"file after exit is not the final registry (file {status})", case)
+
+
 def exact_cadence_case(ctx, workdir: str, periods: int) -> None:
     """'At least every 15 minutes', to the second: on the virtual clock file operations take no time, so a change made one
     second after the n-th save must be on disk 900.5 s after that save - a period of 901 s is already too long."""
@@ -1440,6 +1515,8 @@ def run_case(ctx, case: dict) -> None:
             cancelled_exit_case(ctx, workdir, case["transport"], case["k"], case["cancelled_exit"], case["file"])
         elif "builtin_connect_failure" in case:
             builtin_connect_failure_case(ctx, workdir, case["builtin_connect_failure"])
+        elif "split_task" in case:
+            split_task_case(ctx, workdir, case["transport"], case["split_task"])
         elif "traffic_cadence_gap" in case:
             traffic_cadence_case(ctx, workdir, case["traffic_cadence_gap"])
         elif "executor_delay" in case:
@@ -1531,6 +1608,9 @@ def run(ctx) -> None:
                     live_traffic_case(ctx, workdir, n, c, ctx.seed * 100 + i)
             if ctx.shard_index == (3 % ctx.shard_count):
                 exact_cadence_case(ctx, workdir, ctx.pick(4, 40))
+            for i, (transport, how) in enumerate(itertools.product(("scripted", "mqtt-fake"), ("exit-stack", "dunder"))):
+                if ctx.mine(i):
+                    split_task_case(ctx, workdir, transport, how)
             for i, gap in enumerate((0.5, 2.0, 4.0, 7.0, 30.0)):
                 if ctx.mine(i):
                     traffic_cadence_case(ctx, workdir, gap)
